@@ -111,17 +111,35 @@ func c19Parity(c *Ctx) {
 	r := c.Run
 	const rule = "R6.parity"
 	const pk = "applayer/fragmentation"
-	r.Rule(rule, "Encode(data, fs, red) = the w data fragments followed by red parity fragments, parity y = XOR of the data fragments selected by line y+1 of the specification's matrix, for every data content (fragment counts 1..17 and sizes 1..16 on a grid, redundancy 4)")
-	const red = 4
+	r.Rule(rule, "Encode(data, fs, red) = the w data fragments followed by red parity fragments, parity y = XOR of the data fragments selected by line y+1 of the specification's matrix, for every data content (fragment counts 1..17 and sizes 1..16 on a grid with redundancy 4; redundancy 0, 1, negative and the empty input on selected points)")
+	type cfg struct{ w, fs, red int }
+	var grid []cfg
 	for _, w := range []int{1, 2, 3, 4, 8, 10, 16, 17} {
 		for _, fs := range []int{1, 7, 8, 9, 16} {
+			grid = append(grid, cfg{w, fs, 4})
+		}
+	}
+	// no redundancy (the data rows alone), one parity row, and an empty input
+	for _, g := range []cfg{{1, 1, 0}, {3, 7, 0}, {8, 16, 0}, {17, 9, 0}, {2, 8, 1}, {10, 7, 1}, {0, 8, 0}, {0, 8, 2}, {5, 3, -1}} {
+		grid = append(grid, g)
+	}
+	for _, g := range grid {
+		{
+			w, fs, red := g.w, g.fs, g.red
 			key := fmt.Sprintf("%s.Encode/w%d/fs%d", pk, w, fs)
+			if red != 4 {
+				key += fmt.Sprintf("/red%d", red)
+			}
+			nred := red
+			if nred < 0 {
+				nred = 0
+			}
 			in := absint.NewInterp(c.Prog)
 			d := in.D
 			data := in.SymBytes("data", w*fs)
 			var res []absint.Value
 			if err := in.Try(func() {
-				res = in.CallFunc(pk, "Encode", data, d.Const(int64(fs), 64, true), d.Const(red, 64, true))
+				res = in.CallFunc(pk, "Encode", data, d.Const(int64(fs), 64, true), d.Const(int64(red), 64, true))
 			}); err != nil {
 				if pe, ok := err.(absint.Panic); ok {
 					r.Bad(rule, key, "", "the encoder returns fragments", "panics: "+pe.Why)
@@ -135,12 +153,17 @@ func c19Parity(c *Ctx) {
 				continue
 			}
 			rows, ok := res[0].(*absint.Slice)
+			red = nred
+			if _, isNil := res[0].(absint.NilVal); isNil && w+red == 0 {
+				r.OK(rule, key, "", "no rows for an empty input without redundancy", "nil", false)
+				continue
+			}
 			if !ok || rows.Len() != w+red {
 				n := -1
 				if ok {
 					n = rows.Len()
 				}
-				r.Bad(rule, key, "", fmt.Sprintf("%d rows", w+red), fmt.Sprintf("%d rows", n))
+				r.Bad(rule, key, "", fmt.Sprintf("%d rows", w+red), fmt.Sprintf("%d rows (%s)", n, short(in.Show(res[0]))))
 				continue
 			}
 			good, why := true, fmt.Sprintf("%d data rows and %d parity rows equal the specification for every data content", w, red)
